@@ -860,6 +860,41 @@ func (g *sgen) schemaText(size int, forced bool) (string, []declDef) {
 			}
 		}
 	}
+	// two (or three) single-constructor types whose constructor names differ only in the case of letters (fooBar / foobar /
+	// fOobar: distinct Go identifiers FooBar / Foobar / FOobar): whatever orders, groups or looks names up without regard to
+	// case meets a tie here.  In every forced schema, in one random schema of three.
+	if forced || r.Intn(3) == 0 {
+		for try := 0; try < 20; try++ {
+			base := syll[r.Intn(len(syll))] + upperFirst(syll[r.Intn(len(syll))])
+			variants := []string{base, strings.ToLower(base)}
+			if r.Intn(2) == 0 {
+				variants = append(variants, base[:1]+strings.ToUpper(base[1:2])+strings.ToLower(base[2:]))
+			}
+			ok := !excludedNames[base]
+			seen := map[string]bool{}
+			for _, v := range variants {
+				if seen[goy(v)] || g.goNames[goy(v)] {
+					ok = false
+				}
+				seen[goy(v)] = true
+			}
+			if !ok {
+				continue
+			}
+			for _, v := range variants {
+				g.claim(goy(v))
+				g.minWords = 2
+				t := &rtype{name: g.typeName()}
+				t.ctors = []rdef{{name: v, id: g.id(), params: g.params(1+r.Intn(3), typeNames, false), result: t.name}}
+				types = append(types, t)
+				typeNames = append(typeNames, t.name)
+			}
+			if g.stat != nil {
+				g.stat["names-differing-only-in-case"] += len(variants)
+			}
+			break
+		}
+	}
 	nm := 3 + r.Intn(size+1)
 	var methods []rdef
 	for i := 0; i < nm; i++ {
